@@ -26,6 +26,15 @@ type Result struct {
 	Classes []string // generator-distribution classes this case falls into
 	Known   []string // keys of known findings this case hit (exempted, counted)
 	Info    map[string]int
+	// ReplayCase, when set, is written to the replay file instead of the generated case (for checks that
+	// enumerate sub-cases, e.g. crash points, and want the replay to name the failing one).
+	ReplayCase interface{}
+	// Infra, when set, reports an infrastructure problem (tool missing, child process misbehaving): the run is
+	// inconclusive, never a violation.
+	Infra string
+	// ExtraEvals / ExtraNT account sub-cases explored inside this case (e.g. crash points of a stream), distinct
+	// by construction.
+	ExtraEvals, ExtraNT int
 }
 
 func (r *Result) Failf(format string, a ...interface{}) {
@@ -119,6 +128,9 @@ func (s *Session) Record(c interface{}, r *Result) {
 		return // shrinking re-runs are not counted
 	}
 	s.evals++
+	s.evals += r.ExtraEvals
+	s.ntExtra += r.ExtraNT
+	s.classes["nontrivial"] += r.ExtraNT
 	for _, k := range r.Classes {
 		s.classes[k]++
 	}
@@ -260,12 +272,28 @@ func Drive[C any](t *testing.T, prop, test, rule string, gen func(*rapid.T) C, r
 		return
 	}
 
+	infra := ""
+	defer func() {
+		if infra != "" && !s.failed {
+			t.Fatalf("INFRA (inconclusive, not a violation): %s", infra)
+		}
+	}()
 	rapid.Check(t, func(rt *rapid.T) {
 		c := gen(rt)
 		r := runOne(c)
+		if r.Infra != "" {
+			if infra == "" {
+				infra = r.Infra
+			}
+			return
+		}
 		s.Record(c, r)
 		if r.Err != "" {
-			s.Fail(c, r.Err)
+			if r.ReplayCase != nil {
+				s.Fail(r.ReplayCase, r.Err)
+			} else {
+				s.Fail(c, r.Err)
+			}
 			rt.Fatalf("%s violated: %s", prop, r.Err)
 		}
 	})
